@@ -667,7 +667,7 @@ func feedAggs(target map[string]aggregator.AggregatorFunction, specs []aggSpec, 
 		}
 		if val == nil {
 			// first_value / last_value report an explicit NULL of the first / last row, as on the other window paths
-			if spec.aggType == aggregator.FirstValue || spec.aggType == aggregator.LastValue {
+			if strings.EqualFold(string(spec.aggType), string(aggregator.FirstValue)) || strings.EqualFold(string(spec.aggType), string(aggregator.LastValue)) {
 				agg.Add(nil)
 			}
 			continue
